@@ -1,7 +1,7 @@
 (** C13 — automata conversions and combinators compute the intended regular languages.
     Statements only; proofs live in C13/Proofs*.v. *)
 From Coq Require Import ZArith List Bool.
-From Algo.C13 Require Import Model Spec Lemmas ProofsNFA ProofsDFA ProofsSM ProofsUnion ProofsStar ProofsSubset ProofsSubsetTerm ProofsElim ProofsMinQuot ProofsMinRound ProofsReindex ProofsCombine.
+From Algo.C13 Require Import Model Spec Lemmas ProofsNFA ProofsDFA ProofsSM ProofsUnion ProofsStar ProofsSubset ProofsSubsetTerm ProofsElim ProofsMinQuot ProofsMinRound ProofsReindex ProofsCombine ProofsMinimal ProofsMinTerm.
 Import ListNotations.
 Open Scope Z_scope.
 
@@ -11,8 +11,8 @@ Open Scope Z_scope.
     (DFA.Next reserves -1 for "no transition").  [dfa_noeps]: no DFA transition is labelled 0. *)
 Theorem C13_constructible :
   (forall start final adds, nwf (nbuild start final adds)) /\
-  (forall start final adds, dwf (dbuild start final adds)).
-Proof. split; [exact nwf_nbuild | exact dwf_dbuild]. Qed.
+  (forall start final adds, dwf (dbuild start final adds) /\ NoDup (dfinal (dbuild start final adds))).
+Proof. split; [exact nwf_nbuild | intros; split; [apply dwf_dbuild | apply dbuild_final_nodup]]. Qed.
 
 (** NFA.Accept (ε-closure worklist + move) terminates on every automaton and word and decides the
     path language: w is accepted iff some path labelled w (ε-moves interleaved) leads from the
@@ -52,18 +52,21 @@ Theorem C13_eliminate_dead_states : forall (d : dfa), dwf d -> dfa_ok d ->
             forall w, daccept r w = daccept d w.
 Proof. exact elim_dead_ok. Qed.
 
-(** Minimize accepts w iff the original does.  Full statement: the refinement loop returns within
-    its fuel for every DFA, and the result preserves the language. *)
-Definition C13_minimize_full : Prop := forall (d : dfa), dwf d -> dfa_ok d ->
+(** Minimize terminates (the refinement loop stops within its fuel) and accepts w iff the original
+    does.  [NoDup (dfinal d)] holds for every DFA built through NewDFA ([C13_constructible]). *)
+Theorem C13_minimize : forall (d : dfa), dwf d -> dfa_ok d -> NoDup (dfinal d) ->
   exists m, minimize d = Ok m /\ dwf m /\ dfa_ok m /\ forall w, daccept m w = daccept d w.
+Proof. exact minimize_ok. Qed.
 
-(** Proved: language preservation whenever the loop returns (partial correctness); the partition
-    on which the loop stops is a congruence that separates final from non-final states.
-    Missing: that the fuel |Q|+3 always suffices (each round but the first adds a group) — the
-    correspondence check has never observed Hang. *)
-Theorem C13_minimize_partial : forall (d m : dfa), dwf d -> dfa_ok d -> minimize d = Ok m ->
-  dwf m /\ dfa_ok m /\ forall w, daccept m w = daccept d w.
-Proof. exact minimize_accept. Qed.
+(** Minimize of a DFA without unreachable or dead states has the fewest states of any DFA
+    accepting the same language (any state numbering, partial or total). *)
+Theorem C13_minimal : forall (d m : dfa), dwf d -> dfa_ok d ->
+  (forall x, In x (dstates d) -> exists u, dpath d (dstart d) u x) ->
+  (forall x, In x (dstates d) -> exists w, smem (drun d x w) (dfinal d) = true) ->
+  minimize d = Ok m ->
+  forall D', dfa_ok D' -> (forall w, daccept D' w = daccept d w) ->
+    (length (dstates m) <= length (dstates D'))%nat.
+Proof. exact minimize_minimal. Qed.
 
 (** ReindexStates terminates and accepts w iff the original does. *)
 Theorem C13_reindex_states : forall (d : dfa), dwf d -> dfa_ok d ->
@@ -135,7 +138,8 @@ Print Assumptions C13_clone_dfa.
 Print Assumptions C13_tonfa.
 Print Assumptions C13_todfa.
 Print Assumptions C13_eliminate_dead_states.
-Print Assumptions C13_minimize_partial.
+Print Assumptions C13_minimize.
+Print Assumptions C13_minimal.
 Print Assumptions C13_reindex_states.
 Print Assumptions C13_combine_dfa.
 Print Assumptions C13_union.
